@@ -316,10 +316,8 @@ func (t *pty) fromGo(rv reflect.Value) *pval {
 	case kUint, kUint32, kUint64:
 		v.u = rv.Uint()
 	case kFloat32:
-		v.u = uint64(math.Float32bits(float32(rv.Float())))
-		if rv.CanAddr() {
-			v.u = uint64(*(*uint32)(rv.Addr().UnsafePointer()))
-		}
+		// read the bits without a float64 round trip (which would quiet signalling NaNs)
+		v.u = uint64(math.Float32bits(rv.Interface().(float32)))
 	case kFloat64:
 		v.u = math.Float64bits(rv.Float())
 	case kString:
